@@ -1021,3 +1021,59 @@ Proof.
   exists (new_cpx 5 4 T_HOST [1; 2]), [PEnc; PMut (MData [3]); PMut (MLast true); PEnc].
   vm_compute. discriminate.
 Qed.
+
+(* ================================================================ transactions do not lose queued packets *)
+Lemma c_pump_extends : forall c f q, cs_rt c f = Some q -> exists l, cs_rt (c_pump c) f = Some (q ++ l).
+Proof.
+  intros [s st op] f q H. cbn [cs_rt] in H. unfold c_pump. cbn [cs_open cs_in cs_rt].
+  destruct op; [|exists []; cbn [cs_rt]; now rewrite app_nil_r].
+  destruct (read_packet s) as [[p|e] s1]; cbn [r_step cs_rt fst].
+  - destruct (st (c_fn p)) as [q'|] eqn:E; cbn [fst].
+    + destruct (f =? c_fn p) eqn:Ef.
+      * assert (f = c_fn p) by lia. subst f. rewrite E in H. injection H as <-.
+        exists [p]. unfold upd. now rewrite Z.eqb_refl.
+      * exists []. unfold upd. rewrite Ef, app_nil_r. exact H.
+    + exists []. now rewrite app_nil_r.
+  - exists []. now rewrite app_nil_r.
+Qed.
+
+Lemma c_pumps_extends : forall k c f q, cs_rt c f = Some q -> exists l, cs_rt (c_pumps k c) f = Some (q ++ l).
+Proof.
+  induction k as [|k IH]; intros c f q H; cbn [c_pumps].
+  - exists []. now rewrite app_nil_r.
+  - destruct (c_pump_extends c f q H) as (l1 & H1). destruct (IH _ f _ H1) as (l2 & H2).
+    exists (l1 ++ l2). now rewrite app_assoc.
+Qed.
+
+Lemma c_pumps_open : forall k c, cs_open (c_pumps k c) = cs_open c.
+Proof.
+  induction k as [|k IH]; intros c; [reflexivity|]. cbn [c_pumps]. rewrite IH.
+  unfold c_pump. destruct (cs_open c) eqn:E; [|exact E]. now destruct (read_packet (cs_in c)).
+Qed.
+
+(* a transaction is one more receiver of its function: with packets queued it returns the OLDEST one and everything else
+   stays queued, in order, followed by what arrives meanwhile — nothing that arrived for f is dropped *)
+Lemma c_transact_takes_head : forall takes s st p k x q, wf_cpx p -> st (c_fn p) = Some (x :: q) ->
+  exists c' l, c_step takes (mk_cs s st true) (CTransact p k) = (c', [OTrans (Ok (frame p)) (Some x)]) /\
+    cs_rt c' (c_fn p) = Some (q ++ l).
+Proof.
+  intros takes s st p k x q Hp Hq. cbn [c_step cs_open]. rewrite (tx_packet_wf takes p Hp). cbn [cs_rt cs_in]. rewrite Hq.
+  destruct (c_pumps_extends k (mk_cs s st true) (c_fn p) (x :: q) Hq) as (l & Hl). rewrite Hl. cbn [app].
+  eexists _, l. split; [reflexivity|]. cbn [cs_rt]. unfold upd. now rewrite Z.eqb_refl.
+Qed.
+
+(* the flushing variant loses the queued packet: it is neither returned nor left in the queue *)
+Lemma flushing_transaction_refuted :
+  exists takes c p k x, cs_rt c (c_fn p) = Some [x] /\
+    (forall r, In (OTrans (Ok (frame p)) (Some r)) (snd (c_transact_flush takes c p k)) -> r <> x) /\
+    ~ In x (pending (c_fn p) (cs_rt (fst (c_transact_flush takes c p k)))) /\
+    snd (c_step takes c (CTransact p k)) = [OTrans (Ok (frame p)) (Some x)].
+Proof.
+  pose (a := new_cpx F_CRTP T_HOST T_STM32 [1]). pose (b := new_cpx F_CRTP T_HOST T_STM32 [2]).
+  pose (req := new_cpx F_CRTP T_STM32 T_HOST [9]).
+  exists [], (mk_cs [frame b] (upd r_init F_CRTP [a]) true), req, 1%nat, a.
+  split; [reflexivity|]. split; [|split].
+  - intros r H. vm_compute in H. destruct H as [H|[]]. injection H as <-. discriminate.
+  - vm_compute. intros [].
+  - reflexivity.
+Qed.
